@@ -238,6 +238,12 @@ class Transformer(ast.NodeTransformer):
             self.generic_visit(node)
             self.loop_stack = saved
             return node
+        for d in node.decorator_list:
+            # binding decorators are made explicit by the contract (it passes self / cls itself); any other decorator
+            # (functools.lru_cache, a registry, ...) changes behaviour and cannot be dropped: fail closed
+            nm = d.id if isinstance(d, ast.Name) else (d.attr if isinstance(d, ast.Attribute) else None)
+            if nm not in ('staticmethod', 'classmethod', 'property', 'setter', 'getter', 'abstractmethod'):
+                raise OutOfSubset('decorator %s on %s changes behaviour and is not modelled' % (ast.unparse(d), node.name))
         node.decorator_list = []
         node.returns = None
         for a in node.args.args + node.args.kwonlyargs + node.args.posonlyargs:
